@@ -10,5 +10,5 @@ mkdir -p "$T/repo"; cp -r /repo/klepto "$T/repo/klepto"
 export KLEPTO_REPO="$T/repo"
 for prop in "$@"; do
   OUT=$("$V/check" $prop 2>&1); RC=$?
-  echo "BENIGN $(basename $(dirname $(dirname $P)))/$(basename $P) check=$prop exit=$RC :: $(echo "$OUT" | grep -E '^(VIOLATION|UNDECIDED|CHECKER-BROKEN|NOTE)' | head -3 | sed 's/replay=[^ ]* //' | cut -c1-220 | tr '\n' ';')"
+  echo "BENIGN $(basename $(dirname $P)) check=$prop exit=$RC :: $(echo "$OUT" | grep -E '^(VIOLATION|UNDECIDED|CHECKER-BROKEN|NOTE)' | head -3 | sed 's/replay=[^ ]* //' | cut -c1-220 | tr '\n' ';')"
 done
